@@ -20,7 +20,7 @@ TSIZE = {1: 1, 2: 1, 3: 2, 4: 4, 5: 4, 6: 8, 7: 1, 8: 2, 9: 4, 10: 8, 11: 8}
 CHUNKS = [36, 40, 52, 64, 100, 4096, 262144]
 LEAN_FILES = ['PnVerif/Spec/SpecDecode.lean', 'PnVerif/Model/Header.lean', 'PnVerif/Model/HeaderText.lean', 'PnVerif/Model/Layout.lean',
               'PnVerif/Lemmas/HeaderLemmas.lean', 'PnVerif/Lemmas/Window.lean', 'PnVerif/Lemmas/Decode.lean', 'PnVerif/Lemmas/Encode.lean',
-              'PnVerif/Lemmas/LayoutLemmas.lean', 'PnVerif/Lemmas/PostPass.lean', 'PnVerif/Props/C04.lean', 'Driver/C04.lean']
+              'PnVerif/Lemmas/LayoutLemmas.lean', 'PnVerif/Lemmas/PostPass.lean', 'PnVerif/Lemmas/Accept.lean', 'PnVerif/Props/C04.lean', 'Driver/C04.lean']
 
 
 # ------------------------------------------------------------------------------------------
